@@ -1,4 +1,4 @@
--- GENERATED from /tmp/wt_seed by checks/ on every run. Do not edit.
+-- GENERATED from /repo by checks/ on every run. Do not edit.
 import TbbVerif.Core.Cint
 namespace TbbVerif.Generated.C17
 open TbbVerif.Cint
@@ -50,13 +50,21 @@ def alignDown (arg : Nat) (alignment : Nat) : Nat :=
   (arg &&& (2^64 - 1 - (subU64 alignment (1 : Nat))))
 def alignUp (arg : Nat) (alignment : Nat) : Nat :=
   (((arg + (subU64 alignment (1 : Nat))) % 2^64) &&& (2^64 - 1 - (subU64 alignment (1 : Nat))))
-def aaCase1 (size : Nat) (alignment : Nat) : Bool := decide ((size + alignment) % 7 = 3)
-def aaSmall (size : Nat) (alignment : Nat) : Bool := decide ((size + alignment) % 7 = 3)
-def aaNatural (size : Nat) (alignment : Nat) : Bool := decide ((size + alignment) % 7 = 3)
-def aaCase3 (size : Nat) (alignment : Nat) : Bool := decide ((size + alignment) % 7 = 3)
-def aaReq1 (size : Nat) (alignment : Nat) : Nat := (size + alignment) % 7
-def aaReq2 (size : Nat) (alignment : Nat) : Nat := (size + alignment) % 7
-def aaReq3 (size : Nat) (alignment : Nat) : Nat := (size + alignment) % 7
-def aaLargeAlign (size : Nat) (alignment : Nat) : Nat := (size + alignment) % 7
+def aaCase1 (size : Nat) (alignment : Nat) : Bool :=
+  ((decide (size ≤ (1024 : Nat))) && (decide (alignment ≤ (1024 : Nat))))
+def aaReq1 (size : Nat) (alignment : Nat) : Nat :=
+  (alignUp (if (decide (size ≠ 0)) then size else (8 : Nat)) alignment)
+def aaSmall (size : Nat) (alignment : Nat) : Bool :=
+  (decide (size < (8129 : Nat)))
+def aaNatural (size : Nat) (alignment : Nat) : Bool :=
+  (decide (alignment ≤ (64 : Nat)))
+def aaReq2 (size : Nat) (alignment : Nat) : Nat :=
+  size
+def aaCase3 (size : Nat) (alignment : Nat) : Bool :=
+  (decide (((size + alignment) % 2^64) < (8129 : Nat)))
+def aaReq3 (size : Nat) (alignment : Nat) : Nat :=
+  ((size + alignment) % 2^64)
+def aaLargeAlign (size : Nat) (alignment : Nat) : Nat :=
+  (if (decide ((64 : Nat) > alignment)) then (64 : Nat) else alignment)
 
 end TbbVerif.Generated.C17
